@@ -38,6 +38,9 @@ use grin_util::secp::pedersen::RangeProof;
 use grin_keychain::BlindingFactor;
 use grin_p2p::msg::Type;
 use grin_p2p::verif_export::Codec;
+use croaring::Bitmap;
+use grin_core::core::pmmr::{self, ReadablePMMR, ReadonlyPMMR, VecBackend, PMMR};
+use gvharness::elem::Elem;
 use gvharness::*;
 use std::alloc::{GlobalAlloc, Layout, System};
 use std::collections::BTreeMap;
@@ -140,6 +143,8 @@ unsafe impl GlobalAlloc for Counting {
 static GLOBAL: Counting = Counting;
 
 static HEARTBEAT: AtomicU64 = AtomicU64::new(0);
+/// where the segment size sweep is (for the watchdog): leaves, height, idx, variant, claimed size, bitmap, function
+static SWEEP_AT: [AtomicU64; 7] = [AtomicU64::new(0), AtomicU64::new(0), AtomicU64::new(0), AtomicU64::new(0), AtomicU64::new(0), AtomicU64::new(0), AtomicU64::new(0)];
 
 /// live peak (above the level at the start) of the last `measured` call
 static LAST_PEAK: AtomicUsize = AtomicUsize::new(0);
@@ -840,6 +845,183 @@ fn utf8_string_streams(cx: &mut Ctx) {
 		}
 	}
 	cx.out.raw(&format!("#STAT utf8 strings: {} (length, character width 1..4, ASCII prefix 0..3) combinations x Hand / Shake / PeerError, lengths 0..={} and around 256, 512, 1024, 4096", n, dense));
+}
+
+// ---------------------------------------------------------------------------------------------
+// stateless segment checks against EVERY claimed MMR size, valid or not
+
+/// Genuine segments cut from MMRs of 1..N leaves at heights 0..3 (after a wire round trip) and
+/// mutated-but-decodable ones are validated against every claimed `mmr_size` from 0 to the true size + 8 —
+/// sizes that are no valid MMR size (2, 5, 6, 9, 12, 13 …: `pmmr::peaks` answers an empty vector for them)
+/// as well as valid ones —, without a bitmap and with full / sparse / empty bitmaps: `Segment::root`,
+/// `first_unpruned_parent`, `validate`, `validate_with`, and on the proof directly
+/// `SegmentProof::reconstruct_root` / `validate` / `validate_with` with the segment's own range, the true
+/// range and ranges beyond the last peak.  A header's `output_mmr_size` / `kernel_mmr_size` is chosen by
+/// whoever mined it, so each of these sizes can reach the checks.  A value or an error, never a panic or a hang.
+fn segment_size_sweep(cx: &mut Ctx) {
+	let maxn: u64 = if cx.thorough { 40 } else { 20 };
+	let mut rng = Rng::new(cx.rng.next());
+	let mut ba = VecBackend::<Elem>::new();
+	let mut size = 0u64;
+	let mut calls = 0u64;
+	let mut outcomes: BTreeMap<String, u64> = BTreeMap::new();
+	let mut invalid_sizes_hit = std::collections::BTreeSet::new();
+	for _n in 1..=maxn {
+		let e = Elem(rng.bytes(8));
+		let mut pm = PMMR::at(&mut ba, size);
+		pm.push(&e).unwrap();
+		size = pm.size;
+		let root = pm.root().unwrap();
+		let mmr = ReadonlyPMMR::<Elem, _>::at(&ba, size);
+		let n_leaves = pmmr::n_leaves(size);
+		// bitmaps over the leaf indices: all, every third, none
+		let full: Bitmap = (0..n_leaves as u32).collect();
+		let sparse: Bitmap = (0..n_leaves as u32).filter(|i| i % 3 == 0).collect();
+		let empty = Bitmap::new();
+		let bitmaps: [Option<&Bitmap>; 4] = [None, Some(&full), Some(&sparse), Some(&empty)];
+		let other_root = Hash::from_vec(&rng.bytes(32));
+		for height in 0..=3u8 {
+			let cap = 1u64 << height;
+			let nseg = (n_leaves + cap - 1) / cap;
+			for idx in 0..nseg {
+				let id = SegmentIdentifier { height, idx };
+				let genuine = match Segment::<Elem>::from_pmmr(id, &mmr, false) {
+					Ok(s) => s,
+					Err(_) => continue,
+				};
+				let bytes = sv(&genuine, 1);
+				// the wire round trip, then mutated-but-decodable variants
+				let mut variants: Vec<(Segment<Elem>, Vec<u8>)> = vec![];
+				if let Ok(s) = ser::deserialize::<Segment<Elem>, _>(&mut &bytes[..], ProtocolVersion(1), DeserializationMode::default()) {
+					variants.push((s, bytes.clone()));
+				}
+				let mut tries = 0;
+				while variants.len() < 3 && tries < 30 {
+					tries += 1;
+					let mut b = bytes.clone();
+					let i = rng.below(b.len() as u64) as usize;
+					match rng.below(3) {
+						0 => b[i] ^= 1 << rng.below(8),
+						1 => b[i] = b[i].wrapping_add(1),
+						_ => {
+							// the identifier's index / a position field
+							let j = 1 + 7 + 8 * rng.below(((b.len() - 9) / 8).max(1) as u64) as usize;
+							if j < b.len() {
+								b[j] = b[j].wrapping_add(1 + rng.below(4) as u8);
+							}
+						}
+					}
+					if b == bytes {
+						continue;
+					}
+					if let Ok(Ok(s)) = catch(std::panic::AssertUnwindSafe(|| ser::deserialize::<Segment<Elem>, _>(&mut &b[..], ProtocolVersion(1), DeserializationMode::default()))) {
+						variants.push((s, b));
+					}
+				}
+				let (true_first, true_last) = id.segment_pos_range(size);
+				for (vi, (seg, wire)) in variants.iter().enumerate() {
+					for claimed in 0..=size + 8 {
+						if pmmr::peaks(claimed).is_empty() && claimed > 0 {
+							invalid_sizes_hit.insert(claimed);
+						}
+						for (bi, bm) in bitmaps.iter().enumerate() {
+							let merged = {
+								use grin_core::ser::PMMRIndexHashable;
+								(root, other_root).hash_with_index(claimed)
+							};
+							for f in 0..4u64 {
+								for (k, v) in [n_leaves, height as u64, idx, vi as u64, claimed, bi as u64, f].iter().enumerate() {
+									SWEEP_AT[k].store(*v, Ordering::Relaxed);
+								}
+								calls += 1;
+								let bm2 = *bm;
+								let (r, maxreq) = measured(std::panic::AssertUnwindSafe(|| match f {
+									0 => seg.root(claimed, bm2).map(|_| ()).map_err(|e| format!("{:?}", e)),
+									1 => seg.first_unpruned_parent(claimed, bm2).map(|_| ()).map_err(|e| format!("{:?}", e)),
+									2 => seg.validate(claimed, bm2, root).map_err(|e| format!("{:?}", e)),
+									_ => seg.validate_with(claimed, bm2, merged, claimed, other_root, bi % 2 == 0).map_err(|e| format!("{:?}", e)),
+								}));
+								let fname = ["root", "first_unpruned_parent", "validate", "validate_with"][f as usize];
+								match &r {
+									Err(msg) => {
+										cx.oracle_fails += 1;
+										cx.out.raw(&format!(
+											"#ORACLE-FAIL C11 segment-validate-panics-on-mmr-size Segment::{} panicked ({}): claimed mmr_size {} (valid MMR size: {}), true size {} ({} leaves), segment (height {}, idx {}) {} bitmap {} ; Segment<Elem> wire {}",
+											fname, msg.replace('\n', " "), claimed, claimed == 0 || !pmmr::peaks(claimed).is_empty(), size, n_leaves, height, idx,
+											if vi == 0 { "genuine" } else { "mutated" }, ["none", "all leaves", "every third leaf", "empty"][bi], hex(wire)
+										));
+									}
+									Ok(res) => {
+										let cl = match res {
+											Ok(()) => "Ok".to_string(),
+											Err(e) => e.chars().take_while(|c| c.is_alphanumeric()).collect::<String>(),
+										};
+										*outcomes.entry(format!("{} {} -> {}", fname, if vi == 0 { "genuine" } else { "mutated" }, cl)).or_insert(0) += 1;
+										// the genuine segment against the true size and root is valid
+										if vi == 0 && claimed == size && bi <= 1 && f == 2 && res.is_err() {
+											cx.oracle_fails += 1;
+											cx.out.raw(&format!("#ORACLE-FAIL C11 harness: the genuine segment (height {}, idx {}) of the MMR of size {} does not validate: {:?}", height, idx, size, res));
+										}
+									}
+								}
+								if maxreq > (1 << 20) {
+									cx.oracle_fails += 1;
+									cx.out.raw(&format!("#ORACLE-FAIL C11 segment-validate-over-allocates Segment::{} requested {} bytes: claimed mmr_size {} segment (height {}, idx {}) wire {}", fname, maxreq, claimed, height, idx, hex(wire)));
+								}
+							}
+						}
+						// the proof on its own: the identifier's range for the claimed size, the true range, ranges beyond the last peak
+						let p: &SegmentProof = seg.proof();
+						let (cf, cl) = id.segment_pos_range(claimed);
+						let ranges = [(cf, cl), (true_first, true_last), (claimed, claimed + cap), (claimed.saturating_sub(1), claimed + 1), (true_last + 1, true_last + 2 * cap), (0, claimed.saturating_sub(1))];
+						for (ri, (first, last)) in ranges.iter().enumerate() {
+							for unpruned in [*first, last.wrapping_add(1), 0] {
+								for f in 4..7u64 {
+									for (k, v) in [n_leaves, height as u64, idx, vi as u64, claimed, ri as u64, f].iter().enumerate() {
+										SWEEP_AT[k].store(*v, Ordering::Relaxed);
+									}
+									calls += 1;
+									let (first, last) = (*first, *last);
+									let (r, _) = measured(std::panic::AssertUnwindSafe(|| match f {
+										4 => p.reconstruct_root(claimed, first, last, other_root, unpruned).map(|_| ()).map_err(|e| format!("{:?}", e)),
+										5 => p.validate(claimed, root, first, last, other_root, unpruned).map_err(|e| format!("{:?}", e)),
+										_ => p.validate_with(claimed, root, first, last, other_root, unpruned, claimed, other_root, ri % 2 == 0).map_err(|e| format!("{:?}", e)),
+									}));
+									let fname = ["reconstruct_root", "validate", "validate_with"][(f - 4) as usize];
+									match &r {
+										Err(msg) => {
+											cx.oracle_fails += 1;
+											cx.out.raw(&format!(
+												"#ORACLE-FAIL C11 segment-validate-panics-on-mmr-size SegmentProof::{} panicked ({}): claimed last_pos / mmr_size {} (valid MMR size: {}), segment range {}..={}, unpruned pos {}, proof of {} hashes (from the segment (height {}, idx {}) of the MMR of size {}); Segment<Elem> wire {}",
+												fname, msg.replace('\n', " "), claimed, claimed == 0 || !pmmr::peaks(claimed).is_empty(), first, last, unpruned, p.size(), height, idx, size, hex(wire)
+											));
+										}
+										Ok(res) => {
+											let cl = match res {
+												Ok(()) => "Ok".to_string(),
+												Err(e) => e.chars().take_while(|c| c.is_alphanumeric()).collect::<String>(),
+											};
+											*outcomes.entry(format!("SegmentProof::{} -> {}", fname, cl)).or_insert(0) += 1;
+										}
+									}
+								}
+							}
+						}
+					}
+				}
+			}
+		}
+	}
+	for a in SWEEP_AT.iter() {
+		a.store(0, Ordering::Relaxed);
+	}
+	for (k, v) in outcomes {
+		cx.out.raw(&format!("#STAT segment size sweep: {}: {}", k, v));
+	}
+	cx.out.raw(&format!(
+		"#STAT segment size sweep: {} calls, MMRs of 1..={} leaves, claimed sizes 0..=true+8; claimed sizes that are no valid MMR size: {:?}",
+		calls, maxn, invalid_sizes_hit.iter().take(40).collect::<Vec<_>>()
+	));
 }
 
 fn segment_streams(cx: &mut Ctx) {
@@ -2525,6 +2707,10 @@ fn child_main(mode: &str) {
 			}
 			if idle >= 10 {
 				println!("\n#ORACLE-FAIL C11 hang: no progress for 20 s after case #{}", now);
+				if SWEEP_AT[0].load(Ordering::Relaxed) > 0 {
+					let v: Vec<u64> = SWEEP_AT.iter().map(|a| a.load(Ordering::Relaxed)).collect();
+					println!("#ORACLE-FAIL C11 segment-validate-hangs-on-mmr-size the call in flight: MMR of {} leaves, segment (height {}, idx {}), variant {}, claimed mmr_size {}, bitmap #{}, function #{} (0 root, 1 first_unpruned_parent, 2 validate, 3 validate_with, 4.. proof level)", v[0], v[1], v[2], v[3], v[4], v[5], v[6]);
+				}
 				std::process::exit(3);
 			}
 		}
@@ -2543,6 +2729,7 @@ fn child_main(mode: &str) {
 			native_streams(&mut cx);
 			utf8_string_streams(&mut cx);
 			segment_streams(&mut cx);
+			segment_size_sweep(&mut cx);
 			merkle_stream(&mut cx);
 			hex_streams(&mut cx);
 			payload_streams(&mut cx);
